@@ -26,6 +26,9 @@ CHECKS = {
  "C07": ("exploration", "model-based testing: bounded-exhaustive and proptest-generated call histories, real client stepped alongside a reference ClientModel; request log decoded by the reference codec; final drain",
          "The real Feig client runs against the simulated terminal while a reference model {open: token -> receipt, max} is stepped alongside. All histories of begin/commit/cancel over 3 tokens with every terminal outcome up to depth 3 (thorough 4), success-only to depth 4 (5), for max 0..3, and generated walks to length 40 over 5 tokens: after every call the result class, the traffic (refused calls: zero bytes, no connection; begin: one Reservation; commit/cancel: that token's receipt) and a final drain (cancel of every token) are compared.",
          "Trusted: ClientModel in harness/src/props/c07.rs, simulated terminal; fault-free transport (faults are C09/C10).", "7/C07"),
+ "C08": ("exploration", "proptest generation of amounts, currencies, tokens, receipts and terminal status fields; real client against the simulated terminal; exact expected requests via the reference codec",
+         "Generated configurations (pre-authorisation amount over the whole 12-digit field, final amounts over u64 incl. 0, P-1, P, P+1, u32/u64 extremes, currencies, passwords, CP437 tokens, receipts, 1..3 status-information packets with optional fields over their full width) drive begin + commit/cancel; the Reservation, PartialReversal and PreAuthReversal requests are decoded by the reference codec and must equal the exact expected values (release = max(P - a, 0) in u128, nothing else set), the terminal's ledger must hold min(a, P) and the summary must reproduce the last status information.",
+         "Trusted: reference codec, simulated terminal ledger. P >= 10^12 does not fit the field and is outside the property.", "7/C08"),
  "C09": ("fault_enumeration", "fault enumeration (every position x {close, garbage, NACK, silence, wrong serial}) + proptest multi-fault plans; invariants over the client-side per-connection log on virtual time",
          "Single faults are injected at every packet position of every exchange of each public operation (handshake and reconnect handshake included), multi-fault plans are sampled, and every run ends with one more fault-free call. Invariants I1-I4 over the client-side connection log (open / bytes / close with virtual time) decide the property: registration and identity check first on every connection, no use of a wrong-serial connection, nothing written after a delivered fault and the connection dropped before the next opens, healthy connections kept and reused without re-registration.",
          "Trusted: simulated terminal and the logging stream wrapper (harness/src/sim.rs); fault model of DESIGN.md Appendix C. Only modelled fault kinds are explored.", "7/C09"),
